@@ -123,6 +123,7 @@ def term_zoo():
     add("AggregateFunction", 1, lambda f: T.AggregateFunction("AGG", f[0]))
     add("AggregateFunction.filter", 2, lambda f: T.AggregateFunction("AGG", f[0]).filter(f[1] == 1))
     add("AnalyticFunction", 3, lambda f: T.AnalyticFunction("ANF", f[0]).over(f[1]).orderby(f[2], order=Order.desc))
+    add("AnalyticFunction.filter", 3, lambda f: T.AnalyticFunction("ANF", f[0]).filter(f[1] == 1).over(f[2]))
     add("WindowFrameAnalyticFunction", 3,
         lambda f: T.WindowFrameAnalyticFunction("WFN", f[0]).over(f[1]).orderby(f[2]).rows(AN.Preceding(1), AN.CURRENT_ROW))
     add("IgnoreNullsAnalyticFunction", 2, lambda f: T.IgnoreNullsAnalyticFunction("IGN", f[0]).over(f[1]).ignore_nulls())
